@@ -443,6 +443,11 @@ class Program:
     def all_functions(self) -> List[FuncInfo]:
         return [f for m in self.modules.values() for f in m.all_funcs]
 
+    def func_of_node(self, node: ast.AST) -> Optional[FuncInfo]:
+        if not hasattr(self, "_by_node"):
+            self._by_node = {id(f.node): f for f in self.all_functions()}
+        return self._by_node.get(id(node))
+
     # ------------------------------------------------------------ resolver
     def resolve_call(self, fn: FuncInfo, call: ast.Call, self_cls: Optional[ClassInfo] = None):
         """Resolve the callee of `call` occurring in `fn`.
